@@ -22,6 +22,7 @@ import (
 // goroutines) and C18 (shutdown leaves no sockets, directories or goroutines).
 
 type opSite struct {
+	Proc  string `json:"p,omitempty"`
 	Site  string `json:"s"`
 	First int    `json:"f"` // first occurrence inside the operations phase
 	Last  int    `json:"l"`
@@ -55,8 +56,12 @@ func killRaceSpecs(prop string, tier string, seed uint64, stage int, prev []*h.R
 			json.Unmarshal([]byte(pr.Info["opsites"]), &sites)
 			for _, st := range sites {
 				for occ := st.First; occ <= st.Last && occ < st.First+maxOcc; occ++ {
-					s := sp(prop, fmt.Sprintf("kill-at/%s/%s#%d", pr.Info["conf"], st.Site, occ), seed, cp(pr.Spec.Params, "killrace", "at"))
-					s.Triggers = []*k.Trigger{{On: "site", Proc: "host", Key: st.Site, Occ: occ, Act: "callsleep:kill:50000000"}}
+					proc := st.Proc
+					if proc == "" {
+						proc = "host"
+					}
+					s := sp(prop, fmt.Sprintf("kill-at/%s/%s:%s#%d", pr.Info["conf"], proc, st.Site, occ), seed, cp(pr.Spec.Params, "killrace", "at"))
+					s.Triggers = []*k.Trigger{{On: "site", Proc: proc, Key: st.Site, Occ: occ, Act: "callsleep:kill:50000000"}}
 					out = append(out, s)
 				}
 			}
@@ -74,6 +79,9 @@ func runKillRace(r *h.Run, prop string) {
 	if len(r.Spec.Triggers) > 0 {
 		site := strings.SplitN(r.Spec.Triggers[0].Key, "#", 2)[0]
 		ctx += " op-at=" + site
+		if r.Spec.Triggers[0].Proc == "plugin" {
+			ctx += "(plugin)"
+		}
 	}
 	before := map[string]bool{}
 	for _, p := range w.Paths() {
@@ -87,10 +95,15 @@ func runKillRace(r *h.Run, prop string) {
 	killed := make(chan struct{})
 	kill := func() {
 		once.Do(func() {
-			go k.Trap(func() {
-				defer close(killed)
-				s.kill()
-			})
+			go func() {
+				// (the trigger may fire on a goroutine of the plugin process: the
+				// Kill is the host's)
+				r.Host.Adopt()
+				k.Trap(func() {
+					defer close(killed)
+					s.kill()
+				})
+			}()
 		})
 	}
 	w.Callbacks = map[string]func(){"kill": kill}
@@ -124,12 +137,22 @@ func runKillRace(r *h.Run, prop string) {
 		var sites []opSite
 		for key, n := range end {
 			proc, site, ok := strings.Cut(key, " ")
-			if !ok || proc != "host" || n <= mark[key] {
+			if !ok || (proc != "host" && proc != "plugin") || n <= mark[key] {
 				continue
 			}
-			sites = append(sites, opSite{Site: site, First: mark[key] + 1, Last: n})
+			if proc == "plugin" {
+				// The plugin's own statements are not enumerated. (Tried for C18:
+				// the only thing it shows is that a plugin PROCESS that exits while
+				// one of its goroutines is in the middle of creating a brokered
+				// listener leaves that socket file - the goroutine never runs
+				// again. That is an accept still in flight at the Kill, outside the
+				// property's "histories followed by Kill", and nothing at the
+				// level of Accept can close it.)
+				continue
+			}
+			sites = append(sites, opSite{Proc: proc, Site: site, First: mark[key] + 1, Last: n})
 		}
-		sort.Slice(sites, func(i, j int) bool { return sites[i].Site < sites[j].Site })
+		sort.Slice(sites, func(i, j int) bool { return sites[i].Proc+sites[i].Site < sites[j].Proc+sites[j].Site })
 		js, _ := json.Marshal(sites)
 		r.Info["opsites"] = string(js)
 	}
